@@ -185,19 +185,6 @@ func runSeqX(h *c06.History) (kit.Case, error) {
 	if recachedExpired(h, cachedOuts, plain) {
 		tags["F23:plain-get-recached-expired-ttl-row"] = true
 	}
-	// a differing output need not be the judged one (a plain Get of a TTL row is left open by the interface and
-	// may differ first): the tags look at every differing output
-	for j := range cachedOuts {
-		if cachedOuts[j] == plain[j] {
-			continue
-		}
-		if twoHandles && !faults && otherHandleTouched(h, j) {
-			tags["HANDLES:second-handle-has-its-own-cache"] = true
-		}
-		if !twoHandles && failedWriteTouched(h, j) {
-			tags["WRITEERR:failed-write-left-cache-entry"] = true
-		}
-	}
 	var tl []string
 	for t := range tags {
 		tl = append(tl, t)
@@ -216,73 +203,15 @@ func runSeqX(h *c06.History) (kit.Case, error) {
 	}, nil
 }
 
-// keys (pk/cc, hex) an op addresses
-func opKeys(o *c06.Op) []string {
-	switch o.Op {
-	case "PutBatch":
-		var ks []string
-		for _, it := range o.Items {
-			ks = append(ks, it[0]+"/"+it[1])
-		}
-		return ks
-	case "GetBatch":
-		var ks []string
-		for _, c := range o.CCs {
-			ks = append(ks, o.PK+"/"+c)
-		}
-		return ks
-	case "Advance", "Read", "TTLRead":
-		return nil
-	}
-	return []string{o.PK + "/" + o.CC}
-}
-
-func shareKey(a, b *c06.Op) bool {
-	for _, x := range opKeys(a) {
-		for _, y := range opKeys(b) {
-			if x == y {
-				return true
-			}
-		}
-	}
-	return false
-}
-
-// otherHandleTouched: the op whose output differs is a point op on a key that an earlier op addressed
-// through the other handle (finding C07-HANDLES as observed)
-func otherHandleTouched(h *c06.History, j int) bool {
-	for i := 0; i < j; i++ {
-		if h.Ops[i].H&1 != h.Ops[j].H&1 && shareKey(h.Ops[i], h.Ops[j]) {
-			return true
-		}
-	}
-	return false
-}
-
-// failedWriteTouched: the op whose output differs is a point op on a key of an earlier write that failed
-// after the storage had applied it or part of it (finding C07-WRITEERR as observed)
-func failedWriteTouched(h *c06.History, j int) bool {
-	for i := 0; i < j; i++ {
-		f := faultOf(h.Ops[i])
-		if (f == "after" || strings.HasPrefix(f, "partial:")) && shareKey(h.Ops[i], h.Ops[j]) {
-			return true
-		}
-	}
-	return false
-}
-
-// xHistory: a C06 history over the collision-free key set, either spread over two handles or with faults
-// injected into about a third of its writes
-func xHistory(r *kit.Rng, backend string, handles bool) *c06.History {
+// xHistory: a C06 history over the collision-free key set, spread over two handles (mode 0), with faults
+// injected into about a third of its writes (mode 1), or both (mode 2)
+func xHistory(r *kit.Rng, backend string, mode int) *c06.History {
 	h := c06.GenHistory(r.Fork(), backend, alphabets)
 	for _, o := range h.Ops {
-		if handles {
-			if r.Bool() {
-				o.H = 1
-			}
-			continue
+		if mode != 1 && r.Bool() {
+			o.H = 1
 		}
-		if !isWrite(o.Op) || !r.Chance(1, 3) {
+		if mode == 0 || !isWrite(o.Op) || !r.Chance(1, 3) {
 			continue
 		}
 		switch {
